@@ -588,6 +588,9 @@ func c10Report(run *vk.Run, c *c10Case, name string, d *c10Dir, o *c10DirOutcome
 	sig := "C10:stream|" + class
 	if c.Collide {
 		sig = c10CollisionSig(c.OwnStr, c.ForeignStr)
+		if c.IDShape == "uuid-spellings" {
+			sig = "C10:idcollision|uuid-spellings"
+		}
 		det["observed_as"] = class
 	}
 	det["direction"] = name
@@ -837,7 +840,31 @@ func c10ServerID(r *rand.Rand, ms int64) string {
 	return fmt.Sprintf("tun_%x-%x-%x-%x-%x", u[0:4], u[4:6], u[6:8], u[8:10], u[10:16])
 }
 
-var c10IDShapes = []string{"client-same-mapping", "client-other-mapping", "server-uuid", "arbitrary-shared-prefix", "arbitrary", "short"}
+var c10IDShapes = []string{"client-same-mapping", "client-other-mapping", "server-uuid", "arbitrary-shared-prefix", "arbitrary", "short", "uuid-spellings"}
+
+// c10UUIDSpelling writes the same 16 bytes as different id STRINGS (all longer than the
+// 16-byte wire field): canonical, upper case, 32 hex digits, braced, urn:uuid:, mixed case.
+func c10UUIDSpelling(u [16]byte, k int) string {
+	canon := fmt.Sprintf("%x-%x-%x-%x-%x", u[0:4], u[4:6], u[6:8], u[8:10], u[10:16])
+	switch k % 8 {
+	case 0:
+		return canon
+	case 1:
+		return strings.ToUpper(canon)
+	case 2:
+		return fmt.Sprintf("%x", u[:])
+	case 3:
+		return "{" + canon + "}"
+	case 4:
+		return "urn:uuid:" + canon
+	case 5:
+		return strings.ToUpper(fmt.Sprintf("%x", u[:]))
+	case 6:
+		return "{" + strings.ToUpper(canon) + "}"
+	default: // mixed case: upper-case every other hex letter group
+		return strings.ToUpper(canon[:18]) + canon[18:]
+	}
+}
 
 // c10GenIDPair returns two DIFFERENT id strings of the given shape.
 func c10GenIDPair(r *rand.Rand, shape string) (a, b string) {
@@ -865,6 +892,13 @@ func c10GenIDPair(r *rand.Rand, shape string) (a, b string) {
 			a, b = pre+c10RandString(r, 1+r.Intn(12)), pre+c10RandString(r, 1+r.Intn(12))
 		case "arbitrary":
 			a, b = c10RandString(r, 1+r.Intn(48)), c10RandString(r, 1+r.Intn(48))
+		case "uuid-spellings":
+			var u [16]byte
+			r.Read(u[:])
+			u[6] = 0x40 | u[6]&0x0F
+			u[8] = 0x80 | u[8]&0x3F
+			k := r.Intn(8)
+			a, b = c10UUIDSpelling(u, k), c10UUIDSpelling(u, k+1+r.Intn(7))
 		default: // short: both fit into the wire field
 			for {
 				a, b = c10RandString(r, 1+r.Intn(13)), c10RandString(r, 1+r.Intn(13))
@@ -981,7 +1015,7 @@ func TestVerifC10TunnelIDs(t *testing.T) {
 	vk.Quiet()
 	run := vk.Start(t, "C10", "idstrings")
 	defer run.Finish()
-	run.Rule("pairs of different tunnel-id strings per shape: client generator '<proto>-tunnel-<unixnano>-<port>' (same mapping, creation times 1ns..40d apart; different mappings), server generator 'tun_<uuidv7>' (0..100s apart), arbitrary NUL-free strings with/without a shared prefix, strings that fit the 16-byte field; each pair mapped through TunnelIDFromString and run as tunnel 1 then tunnel 2 on one reused loopback TCP connection with residual tunnel-1 data/Close frames injected into tunnel 2; distinct = (shape, whether the strings share 16 leading bytes, length classes)")
+	run.Rule("pairs of different tunnel-id strings per shape: client generator '<proto>-tunnel-<unixnano>-<port>' (same mapping, creation times 1ns..40d apart; different mappings), server generator 'tun_<uuidv7>' (0..100s apart), arbitrary NUL-free strings with/without a shared prefix, strings that fit the 16-byte field, two different spellings of the same UUID (canonical / upper / 32 hex / braced / urn:uuid: / mixed case); each pair mapped through TunnelIDFromString and run as tunnel 1 then tunnel 2 on one reused loopback TCP connection with residual tunnel-1 data/Close frames injected into tunnel 2; distinct = (shape, whether the strings share 16 leading bytes, length classes)")
 	r := run.Rand("gen")
 	ln := c10Listen(t)
 	defer ln.Close()
